@@ -4,6 +4,7 @@ use std::panic::{catch_unwind, AssertUnwindSafe};
 mod refspec;
 use refspec::*;
 mod io_domains;
+mod controller;
 
 pub struct Rng(u64);
 impl Rng {
@@ -511,6 +512,7 @@ fn main() {
             "message" => search_message(&mut rng),
             "signtype" => search_signtype(&mut rng),
             "e2e" => search_e2e(&mut rng, 110000 * scale),
+            "controller" => controller::search_controller(&mut rng, 60000 * scale),
             "stream" => io_domains::search_stream(&mut rng, 4000 * scale),
             "serial" => io_domains::search_serial(&mut rng, 2 * scale),
             "bridge" => io_domains::search_bridge(&mut rng, 40 * scale),
@@ -530,6 +532,7 @@ fn main() {
             "signtype" => search_signtype(&mut rng),
             // these domains have no single-input form: the deterministic search (same seed) is repeated on the current code
             "e2e" => search_e2e(&mut rng, 110000 * scale),
+            "controller" => controller::search_controller(&mut rng, 60000 * scale),
             "stream" => io_domains::search_stream(&mut rng, 4000 * scale),
             "serial" => io_domains::search_serial(&mut rng, 2 * scale),
             "bridge" => io_domains::search_bridge(&mut rng, 40 * scale),
